@@ -211,7 +211,17 @@ func visitInstr(fr *frame, instr ssa.Instruction) continuation {
 		fr.runDefers()
 
 	case *ssa.Panic:
-		panic(targetPanic{fr.get(instr.X)})
+		v := fr.get(instr.X)
+		tp := targetPanic{v: v}
+		if it, ok := v.(iface); ok && it.t != nil {
+			if m := fr.i.findMethod(it.t, "Error"); m != nil && fr.i.interpretedFn(m) {
+				func() {
+					defer func() { recover() }()
+					tp.msg = toString(call(fr.i, fr, 0, m, []value{it.v}))
+				}()
+			}
+		}
+		panic(tp)
 
 	case *ssa.Store:
 		store(mustDeref(instr.Addr.Type()), fr.ptr(fr.get(instr.Addr)), fr.get(instr.Val))
@@ -531,6 +541,11 @@ func runFrame(fr *frame) {
 			if bi := fr.faultingInstr(); bi != "" {
 				c.panicSite += " @ " + bi
 			}
+			// a recovered panic that is raised again keeps its original site
+			if c.lastRecMsg != "" && strings.Contains(panicMessage(e), c.lastRecMsg) {
+				c.panicSite = c.lastRecSite
+				c.panicStack = c.lastRecStack
+			}
 		}
 		fr.panicking = true
 		fr.panic = e
@@ -582,8 +597,11 @@ func doRecover(caller *frame) value {
 		caller.caller.panicking = false
 		p := caller.caller.panic
 		caller.caller.panic = nil
-		caller.i.ctx.panicking = false
-		caller.i.ctx.panicSite = ""
+		ctx := caller.i.ctx
+		ctx.lastRecMsg = strings.TrimPrefix(strings.TrimPrefix(panicMessage(p), "panic: "), "runtime error: ")
+		ctx.lastRecSite, ctx.lastRecStack = ctx.panicSite, ctx.panicStack
+		ctx.panicking = false
+		ctx.panicSite = ""
 		switch p := p.(type) {
 		case targetPanic:
 			// The target program explicitly called panic().
